@@ -549,7 +549,7 @@ pub fn run_op<T: Elem + Clone + Ord>(ctx: &mut Ctx, oc: &OpCase<'_>) -> Outcome 
     let nv = n_vals(&oc.op, wc.max(1), wr.max(1));
     let vals: Vec<T> = (0..nv).map(|i| T::fresh(50 + (i % 3) as u32)).collect();
     let vals_mc: VecDeque<Mc> = vals.iter().map(mc).collect();
-    let twin_vals: Option<Vec<T>> = if oc.twin && T::CLONE_KEEPS_UID { Some(vals.clone()) } else { None };
+    let twin_vals: Option<Vec<T>> = if oc.twin && T::CLONE_KEEPS_UID && !T::IS_ZST { Some(vals.clone()) } else { None };
     let mut vals: VecDeque<T> = vals.into();
     // model
     let mut wg = wg0.clone();
